@@ -107,6 +107,7 @@ def judgeSnapshot (L : Nat) (store : Store.Store) (obs : List ObsObj) : Option S
     | some v =>
       if ob.term != 0 then some s!"o{ob.id}: no NUL after the last element"
       else if ob.whereS.startsWith "A" || ob.whereS.startsWith "Z" then some s!"o{ob.id}: data() points into another object"
+      else if ob.whereS.startsWith "!" then some s!"o{ob.id}: an accessor disagrees with data()/size() ({ob.whereS})"
       else if ob.size < L && ob.whereS != "L" then some s!"o{ob.id}: short contents not inside the object"
       else if ob.size ≥ L && !ob.whereS.startsWith "H" then some s!"o{ob.id}: long contents not on the heap"
       else if !valMatches v ob then some s!"o{ob.id}: size/elements differ from the last value given"
@@ -261,6 +262,7 @@ def judgeFault (w L : Nat) (r : Prefix) (op : Op) (k : Nat) (c : Case) : Option 
       let bad := after.findSome? fun ob =>
         if ob.term != 0 then some s!"after bad_alloc: o{ob.id} has no NUL after the last element"
         else if ob.whereS.startsWith "A" || ob.whereS.startsWith "Z" then some s!"after bad_alloc: o{ob.id} points into another object"
+        else if ob.whereS.startsWith "!" then some s!"after bad_alloc: o{ob.id} an accessor disagrees with data()/size() ({ob.whereS})"
         else if ob.size < L && ob.whereS != "L" then some s!"after bad_alloc: o{ob.id} short contents not inside the object"
         else if ob.size ≥ L && !ob.whereS.startsWith "H" then some s!"after bad_alloc: o{ob.id} long contents not on the heap"
         else if ob.units.length != ob.size then some s!"after bad_alloc: o{ob.id} unreadable"
